@@ -154,7 +154,12 @@ func GetToken(input string, valTy *ValType, pos *int) int {
 	c := int(input[*pos] - 'a')
 	*valTy = ValType{a: *pos + 1, b: 2*(*pos) + 1}
 	*pos++
-	if c < 0 || c >= len(codes) { return 9999 }
+	if c < 0 || c >= len(codes) {
+		// 'y' and 'x' are codes just above the largest token code (where the generator numbers its
+		// nonterminals); every other unknown letter is 9999
+		if (c == 24 || c == 23) && len(codes) > 0 { m := codes[0]; for _, v := range codes { if v > m { m = v } }; return m + 25 - c }
+		return 9999
+	}
 	return codes[c]
 }
 func Run(input string) (verdict string, log []int, val int, req int) {
@@ -186,7 +191,10 @@ function GetToken(input :string, model:{ValType :ValType, pos :number}) :number 
 	model.ValType.a = model.pos + 1;
 	model.ValType.b = 2*model.pos + 1;
 	model.pos++;
-	if (c < 0 || c >= codes.length) { return 9999 }
+	if (c < 0 || c >= codes.length) {
+		if ((c == 24 || c == 23) && codes.length > 0) { return Math.max(...codes) + 25 - c }
+		return 9999
+	}
 	return codes[c];
 }
 function Run(input :string) {
@@ -286,12 +294,20 @@ def scrape(path, target):
 def tok_map(xs, sc):
     """letter index -> symbol id, through the emitted constants and translate switch"""
     out = []
+    codes = []
     for t in xs["terms"]:
         if t.startswith("'"):
             code = ord(t[1])
         else:
             code = sc["consts"].get(t)
         out.append(sc["translate"].get(code, 0) if code is not None else 0)
+        codes.append(code)
+    # letters 'x' (23) and 'y' (24): the codes just above the largest token code, through this file's own translate
+    known = [c for c in codes if c is not None]
+    if known and len(out) < 23 and len(known) == len(codes):
+        out += [0] * (26 - len(out))
+        out[24] = sc["translate"].get(max(known) + 1, 0)
+        out[23] = sc["translate"].get(max(known) + 2, 0)
     return out
 
 
@@ -559,7 +575,12 @@ func GetToken(input string, valTy *ValType, pos *int) int {
 	c := int(input[*pos] - 'a')
 	*valTy = ValType{a: *pos + 1, b: 2*(*pos) + 1}
 	*pos++
-	if c < 0 || c >= len(codes) { return 9999 }
+	if c < 0 || c >= len(codes) {
+		// 'y' and 'x' are codes just above the largest token code (where the generator numbers its
+		// nonterminals); every other unknown letter is 9999
+		if (c == 24 || c == 23) && len(codes) > 0 { m := codes[0]; for _, v := range codes { if v > m { m = v } }; return m + 25 - c }
+		return 9999
+	}
 	return codes[c]
 }
 type Res struct { V string; Log []int; Val int }
